@@ -14,6 +14,10 @@ CHECKS = [
         "Generated histories of C_SetPIN / C_InitPIN / C_InitToken / C_Login with PINs drawn from all byte strings of length 0..258 and 13 near-miss variants of the current PINs, interleaved with re-initialisations and process restarts; login must succeed IFF the PIN equals the model's; after every step both roles, former PINs, the private object and the other token are re-verified.",
         "Wrong-PIN acceptance with probability 2^-32 (blob magic check) is ignored; file backend.",
         "model-based stateful PBT (Hypothesis) with near-miss input construction and restart injection", "DESIGN.md 2/C04"),
+    chk("C07", "exploration",
+        "The complete table operation x key x usage flag x mechanism x CKA_ALLOWED_MECHANISMS x slots.mechanisms (52k cells, 5 configurations built from two complementary partitions of the mechanism list) is enumerated against the real library with valid parameters and valid wrapped blobs; the oracle is a reference table mechanism -> admissible key class/type transcribed from PKCS#11 v2.40; C_GetMechanismList is compared with the configuration text; keyless entry points and the ALWAYS_AUTHENTICATE protocol (single/multi-part sign, decrypt; none/wrong/right context-specific login) are included. exhaustive: true for this table.",
+        "One-directional as stated: success implies all conditions. One key size per key type; only pMechanism->mechanism is judged against the configuration.",
+        "exhaustive enumeration of a finite decision table against an independent reference table", "DESIGN.md 2/C07"),
     chk("C09", "exploration",
         "Generated histories biased to failing object-management calls (templates corrupted at a generated position, wrong session state, dead handles) on token and session objects; after every failing call the complete census through two sessions per token is compared with the state committed by the last successful call, and again at the end of the history.",
         "In-memory and API-visible state; the token directory / fault-injection legs are reported separately inside the evidence when present.",
